@@ -28,7 +28,8 @@ inductive Cmd (S : Type) where
   | backward (v : String) (seed : Option String)
   | grad (v : String) | takegrad (w v : String) | cleargrad (v : String) | setgrad (v w : String)
   | show (v : String) | idx (v : String) (i : List Nat) | idxflat (v : String) (i : Nat)
-  | eq (a b : String) | probe (v : String) | probekid (v : String) (i : Nat) | own (v : String)
+  | eq (a b : String) | same (a b : String) | samegrad (a b : String)
+  | lin (c : String) (al : S) (a : String) (be : S) (b : String) | probe (v : String) | flags (v : String) | probekid (v : String) (i : Nat) | own (v : String)
   | log
   | gdupdate (lr : S) (vs : List String)
   | dense (l : String) (inp out : Nat) (act : Act) (w b : List S)
@@ -49,6 +50,7 @@ inductive Out (S : Type) where
   | flag (b : Bool)
   | probe (cnt : Nat) (pend tr keep : Bool) (kids rc : Nat)
   | kid (tr keep : Bool) (cnt : Nat) (pend : Bool)
+  | flags (tr keep : Bool) (kids : Nat)
   | nokid
   | owned (vals : List S)
   | log (entries : List (String × Tensor S))
@@ -195,11 +197,33 @@ def exec (σ : State S) (c : Cmd S) : R (State S × Out S) :=
   | .eq a b => do
     let ha ← σ.get a; let hb ← σ.get b
     pure (σ, .bool ((σ.tensorOf ha).beq (σ.tensorOf hb)))
+  | .same a b => do
+    let ha ← σ.get a; let hb ← σ.get b
+    pure (σ, .bool ((σ.tensorOf ha).beq (σ.tensorOf hb)))
+  | .samegrad a b => do
+    let ha ← σ.get a; let hb ← σ.get b
+    let r := match σ.grad.getD ha.node none, σ.grad.getD hb.node none with
+      | some x, some y => x.beq y
+      | none, none => true
+      | _, _ => false
+    pure (σ, .bool r)
+  | .lin c al a be b => do
+    let hc ← σ.get c; let ha ← σ.get a; let hb ← σ.get b
+    let r := match σ.grad.getD hc.node none, σ.grad.getD ha.node none, σ.grad.getD hb.node none with
+      | some gc, some ga, some gb =>
+        gc.beq ⟨ga.dims, List.zipWith (fun x y => al * x + be * y) ga.vals gb.vals⟩
+      | none, none, none => true
+      | _, _, _ => false
+    pure (σ, .bool r)
   | .probe v => do
     let h ← σ.get v
     let nk := match σ.nodes[h.node]? with | some r => r.kids.length | none => 0
     pure (σ, .probe (σ.cnt.getD h.node 0) (σ.delta.getD h.node none).isSome h.tracked h.keep nk
       (σ.owners h.buf))
+  | .flags v => do
+    let h ← σ.get v
+    let nk := match σ.nodes[h.node]? with | some r => r.kids.length | none => 0
+    pure (σ, .flags h.tracked h.keep nk)
   | .probekid v i => do
     let h ← σ.get v
     match σ.nodes[h.node]? with
